@@ -537,6 +537,37 @@ def aaaHost (fixed : Bool) (orig parsed : Str) : Res (Option Str) :=
       | [] => .panic (.index "words[2]")
   | _ => .panic (.index "words[2]")
 
+/-- `c.sub[0].ref[0]` under `if len(c.sub) != 0`. -/
+def subRef (c : Cmd) : Res Str :=
+  match c.sub with
+  | [] => .ok []
+  | s0 :: _ =>
+    match s0.ref with
+    | r :: _ => .ok r
+    | [] => .panic (.index "c.sub[0].ref[0]")
+
+/-- the loop `for _, c := range l[1:]` of the aaa-server part; `ldapMap` starts as " ". -/
+def aaaRest (fixed : Bool) (name : Str) : Str → List Cmd → Res (List Cmd)
+  | _, [] => .ok []
+  | ldapMap, c :: cs =>
+    (aaaHost fixed c.orig c.parsed).bind fun o =>
+      match o with
+      | none => (aaaRest fixed name ldapMap cs).bind fun r => .ok (c :: r)
+      | some p =>
+        (subRef c).bind fun ref =>
+          if ldapMap ≠ lit " " ∧ ldapMap ≠ ref then
+            .diag (lit "aaa-server " ++ name ++ lit " must not use different values in 'ldap-attribute-map'")
+          else (aaaRest fixed name ref cs).bind fun r => .ok ({ c with parsed := p } :: r)
+
+/-- the body of `for name, l := range lookup["aaa-server"]`: `l[0]`, `l[1:]`, `l[0:2]`. -/
+def aaaGroup (fixed : Bool) (name : Str) (l : List Cmd) : Res (List Cmd) :=
+  match l with
+  | [] => .panic (.index "l[0]")
+  | c0 :: rest =>
+    if ¬ hasSuffix c0.parsed (lit "protocol ldap") then .ok l
+    else if rest = [] then .ok l
+    else (aaaRest fixed name (lit " ") rest).bind fun r => .ok (c0 :: r.take 1)
+
 /-- `setTransRef` for one command whose `parsed` contains `cmdPart`: `names` is what follows
 `cmdPart`.  `strings.Repeat("$REF ", len(nl)-1)` panics for a negative count. -/
 def transRefs (names : Str) : Res (List Str × Str) :=
